@@ -257,7 +257,7 @@ theorem inverseTensor_succ {ν : Type} (names : ν × ν) (m : Nat) (hm1 : 1 ≤
   by_cases hd : (sqMat (m + 1) get).det = 0
   · rw [if_pos ((heq _ _).mpr hd), if_pos hd]
   · rw [if_neg (fun h => hd ((heq _ _).mp h)), if_neg hd]
-    rw [adjugateScaled_ok (m + 1) hm6 _ _ (minorVal (sqMat (m + 1) get))]
+    rw [adjugateScaled_ok (m + 1) _ _ (minorVal (sqMat (m + 1) get))]
     intro i j hi hj
     rw [minorTensor_eq_det m hm1 hm6 get i j hi hj]
     simp [minorVal, hi, hj]
